@@ -27,12 +27,24 @@ Alphabet ==
     [] AlphaName = "assign"-> {One, X, Y} \cup Ops(AssignOps \cup {"+", ";"})
     [] AlphaName = "call"  -> {One, StrT, X, F, TId(<<108, 101, 110>>)} \cup Ops({"(", ")", ",", "-", "^", "*"})   \* len: a builtin name
     [] AlphaName = "idents"-> {X, Y, F} \cup Ops({"=", "+=", ";", ",", "(", ")", "+"})       \* two variable names: order of occurrences
+    \* "ifthen" / "ifelse": the enumerated sequence S is an ARGUMENT of the builtin `if`, in the branch that is NOT selected:
+    \* `if ( false , S , 1 )` and `if ( true , 1 , S )`.  Functions are strict - all arguments are evaluated before the call -
+    \* so an S that is not derivable (an operator without operand) makes every evaluation fail (C13) although the tree
+    \* precompiles; an evaluator that skips the unselected branch gives the ill-formed input a meaning.
+    [] AlphaName \in {"ifthen", "ifelse"} -> {One, X, F} \cup Ops({"-", "!", "^", "*", "+", "<", "=", "(", ")"})
     [] AlphaName = "wide"  -> {One, TrueT, X, Y, F} \cup Ops({"-", "!", "^", "%", "-", "==", "&&", "||", "=", "*=", "(", ")", ",", ";"})
 
 Init == toks = <<>>
 Next == Len(toks) < MaxLen /\ \E t \in Alphabet : toks' = Append(toks, t)
 
-Cls == Classify(toks)
+IfT == TId(<<105, 102>>)
+FalseT == TLit(VBool(FALSE), FalseText)
+\* the classified and emitted sequence: the enumerated one, or the enumerated one inside the frame of its family
+Full == CASE AlphaName = "ifthen" -> <<IfT, TOp("("), FalseT, TOp(",")>> \o toks \o <<TOp(","), One, TOp(")")>>
+          [] AlphaName = "ifelse" -> <<IfT, TOp("("), TrueT, TOp(","), One, TOp(",")>> \o toks \o <<TOp(")")>>
+          [] OTHER -> toks
+
+Cls == Classify(Full)
 
 \* ---- theorems of the specification itself, checked on every sequence
 RECURSIVE SeqShapeOK(_)
@@ -50,8 +62,8 @@ AritiesOK(n) ==
        [] OTHER -> TRUE
 
 SpecTheorems ==
-  LET r == Loose(toks) IN
-  /\ (~Balanced(toks) => ~r.ok)                                    \* unbalanced input is never derivable
+  LET r == Loose(Full) IN
+  /\ (~Balanced(Full) => ~r.ok)                                    \* unbalanced input is never derivable
   /\ (r.ok => SeqShapeOK(r.node) /\ AritiesOK(r.node))
   /\ (Cls.class = "WF" =>
         /\ WFAst(Cls.tree)
@@ -61,7 +73,7 @@ SpecTheorems ==
         /\ Classify(Render(Cls.tree, CallParens)) = Cls
         /\ Classify(Render(Cls.tree, AllParens)) = Cls)
 
-Case == [kind |-> "parse", toks |-> TokTexts(toks), class |-> Cls.class, bal |-> Balanced(toks),
+Case == [kind |-> "parse", toks |-> TokTexts(Full), class |-> Cls.class, bal |-> Balanced(Full),
          tree |-> JTree(Cls.tree), occ |-> IF Cls.class = "WF" THEN Occurrences(Cls.tree) ELSE <<>>]
 \* C05, value half: a well-formed sequence is also evaluated (x = 5 initially): the value of a chain is that of its last
 \* element with the effects of the earlier ones applied, a tuple is flat, an absent element is the empty value
